@@ -33,6 +33,33 @@ RULE = ("trees of 2-4 files with some files damaged within capacity, both tools;
         "distinct = distinct (scenario, cut)")
 
 
+def damaged_tree(tree):
+    dmg = dict(tree)
+    for p in sorted(tree)[:2]:
+        if tree[p]:
+            c = bytearray(tree[p])
+            c[0] ^= 0x41
+            dmg[p] = bytes(c)
+    return dmg
+
+
+def judge_cut(c, rc, out, out0, bounds, order, dmg, droot):
+    """the property on one real run with the ecc file cut at offset c (out0 = outputs with the complete ecc file)"""
+    if rc.startswith("exception"):
+        return "correction did not terminate normally on the prefix: %s" % rc
+    bad = None
+    for i, (s, e) in enumerate(bounds):
+        if e <= c and out.get(order[i]) != out0.get(order[i]):
+            bad = "file %s, whose entry lies wholly before the cut, is not handled as with the complete ecc file" % order[i]
+            break
+    for p, v in out.items():
+        if len(v) != len(dmg.get(p, b"")):
+            bad = "output %s has a different length than its input (file damaged on account of the incomplete entry)" % p
+    if eu.read_tree(droot) != dmg:
+        bad = "an input file was modified"
+    return bad
+
+
 def run(oc, tier, seed, model_available, escalate):
     rng = random.Random(seed * 1000003 + 13)
     n = 12 if tier == "quick" else 60
@@ -64,12 +91,7 @@ def run(oc, tier, seed, model_available, escalate):
         bounds = eu.entry_bounds(data)
         fields = [eu.parse_entry(data, s, e) for s, e in bounds]
         order = [f["relpath"].decode("latin-1") for f in fields]
-        dmg = dict(tree)
-        for p in sorted(tree)[:2]:
-            if tree[p]:
-                c = bytearray(tree[p])
-                c[0] ^= 0x41
-                dmg[p] = bytes(c)
+        dmg = damaged_tree(tree)
         droot = os.path.join(d, "dmg")
         eu.write_tree(droot, dmg)
         rc0, st0, out0, _ = eu.correct(P, droot, ecc, os.path.join(d, "out0"))
@@ -91,19 +113,7 @@ def run(oc, tier, seed, model_available, escalate):
             open(e2, "wb").write(data[:c])
             rc, st, out, txt = eu.correct(P, droot, e2, os.path.join(d, "out"))
             oc.oracle_cases += 1
-            bad = None
-            if rc.startswith("exception"):
-                bad = "correction did not terminate normally on the prefix: %s" % rc
-            else:
-                for i, (s, e) in enumerate(bounds):
-                    if e <= c and out.get(order[i]) != out0.get(order[i]):
-                        bad = "file %s, whose entry lies wholly before the cut, is not handled as with the complete ecc file" % order[i]
-                        break
-                for p, v in out.items():
-                    if len(v) != len(dmg.get(p, b"")):
-                        bad = "output %s has a different length than its input (file damaged on account of the incomplete entry)" % p
-                if eu.read_tree(droot) != dmg:
-                    bad = "an input file was modified"
+            bad = judge_cut(c, rc, out, out0, bounds, order, dmg, droot)
             if bad:
                 oc.violations.append({"input": {"params": P.describe(), "tree": {k: v.hex() for k, v in tree.items()}, "cut": c, "ecc_len": len(data),
                                                 "entry_bounds": bounds}, "impl": {"exit": rc, "stats": st}, "what": bad})
@@ -156,6 +166,40 @@ def search(seed, tier, hints):
 
 
 def replay(payload):
-    common.say("replay input:", payload.get("input"))
-    common.say("re-run the check with the recorded seed to reproduce")
-    return 0
+    """regenerates the ecc file of the recorded tree (generation is deterministic), cuts it at the recorded offset, runs the real tool
+    and judges again; exit 1 if the property still fails"""
+    inp = payload.get("input", {})
+    try:
+        P = eu.Params(**inp["params"])
+        tree = {k: bytes.fromhex(v) for k, v in inp["tree"].items()}
+        c = int(inp["cut"])
+    except (KeyError, ValueError, TypeError):
+        common.say("replay file is not self-contained: re-run the check with the recorded seed")
+        return 0
+    d = os.path.join(common.scratch(), "c13replay")
+    shutil.rmtree(d, ignore_errors=True)
+    root, ecc = os.path.join(d, "root"), os.path.join(d, "ecc.txt")
+    eu.write_tree(root, tree)
+    if eu.generate(P, root, ecc) != "0":
+        common.say("generation failed")
+        return 1
+    data = open(ecc, "rb").read()
+    bounds = eu.entry_bounds(data)
+    order = [eu.parse_entry(data, s, e)["relpath"].decode("latin-1") for s, e in bounds]
+    # the preamble repeats the command line (scratch paths differ from run to run): keep the cut at the same place relative to the entries
+    ob0 = inp.get("entry_bounds", [[None]])[0][0]
+    if ob0 is not None and bounds:
+        nb0 = bounds[0][0]
+        c = c - ob0 + nb0 if c >= ob0 else (c * nb0) // max(1, ob0)
+    dmg = damaged_tree(tree)
+    droot = os.path.join(d, "dmg")
+    eu.write_tree(droot, dmg)
+    rc0, st0, out0, _ = eu.correct(P, droot, ecc, os.path.join(d, "out0"))
+    e2 = os.path.join(d, "cut.txt")
+    open(e2, "wb").write(data[:c])
+    rc, st, out, _ = eu.correct(P, droot, e2, os.path.join(d, "out"))
+    bad = judge_cut(c, rc, out, out0, bounds, order, dmg, droot)
+    common.say("params:", P.describe())
+    common.say("ecc file of %d bytes cut at %d: exit %s, stats %s (complete file: exit %s, stats %s)" % (len(data), c, rc, st, rc0, st0))
+    common.say("FAILS: %s" % bad if bad else "the property holds on this input now")
+    return 1 if bad else 0
